@@ -1763,11 +1763,28 @@ class CppEmitter(Visitor):
                 for a, src, slot in zip(args, srcs, slots)
             ]
 
+        def narrowed(out: str, sig: CppOp) -> str:
+            # An operator takes its type from its operands, so a `double` token
+            # beside a `float` operand promotes the operation to `double`.  That
+            # is C++'s own and sound for `+ - * /` (`2p + 2 <= 53`, see
+            # `_call_arg`) -- provided the result is rounded to `float` before
+            # anything else uses it.  A declaration does that; an enclosing
+            # operation, comparison or call does not, so it is stated here.
+            if sig.is_call or CppScalar.F32 not in sig.in_tys:
+                return out
+            if not any(
+                isinstance(src, RationalVal)
+                and self._literal_cpp_type(src) is CppScalar.F64
+                for src in srcs
+            ):
+                return out
+            return self._explicit_cast(out, CppScalar.F32)
+
         # (1) direct match
         for sig in sigs:
             if sig.matches(tuple(storages), active):
                 out = spell(codes, sig.in_tys) if sig.is_call else codes
-                return sig.format(*out)
+                return narrowed(sig.format(*out), sig)
 
         # (2) cast every operand into the active context's storage
         try:
@@ -1784,7 +1801,7 @@ class CppEmitter(Visitor):
                     ]
                     if sig.is_call:
                         casts = spell(casts, want)
-                    return sig.format(*casts)
+                    return narrowed(sig.format(*casts), sig)
 
         # (3) widen, only under REAL
         if active is REAL:
